@@ -1,7 +1,31 @@
 (* C10: numeric values are exact or rejected, never silently wrapped: the arithmetic of every
-   numeric position, for digit strings of every length.  (PARTIAL in one respect: that the
-   accumulator is fed exactly the digits of the reported field is checked by correspondence.) *)
-From Sipsp Require Import Harness IP4 Numbers.
+   numeric position, for digit strings of every length; and, at parser level for ParseUIntVal /
+   ParseExpiresVal / ParseCLenVal, that the value reported is the decimal value of exactly the
+   digits of the field reported (any offset, leading white space, digit strings of every length).
+   PARTIAL in one respect: for the other numeric positions (CSeq number, status, port, contact
+   expires / q) that the accumulator is fed exactly the digits of the reported field is checked by
+   the correspondence run and the number-chunked oracle. *)
+From Sipsp Require Import Harness IP4 Numbers FLineSpec UIntSpec.
+Theorem C10_uint_header_value_is_its_digits : forall p sp ds d x,
+  Forall (fun b => is_sp b = true) sp -> all_digits ds -> ds <> [] -> is_sp d = false ->
+  let i := nnat (length p) in
+  let text := sp ++ ds ++ CR :: LF :: d :: x in
+  if dec ds <=? MaxU32 then
+    parse_uint (p ++ text) i uintb0
+    = Done (i + nnat (length sp) + nnat (length ds) + 2) EOk
+        (mkuintb (dec ds) (mkpf (i + nnat (length sp)) (nnat (length ds))) ClFIN 0)
+  else exists o s', parse_uint (p ++ text) i uintb0 = Done o ENumTooBig s'.
+Proof. exact uint_value_spec. Qed.
+Theorem C10_content_length_value_is_its_digits : forall p sp ds d x,
+  Forall (fun b => is_sp b = true) sp -> all_digits ds -> ds <> [] -> is_sp d = false ->
+  let i := nnat (length p) in
+  let text := sp ++ ds ++ CR :: LF :: d :: x in
+  if (dec ds <=? MaxClenValue) && (nnat (length ds) <=? MaxCLenValueSize) then
+    parse_clen (p ++ text) i uintb0
+    = Done (i + nnat (length sp) + nnat (length ds) + 2) EOk
+        (mkuintb (dec ds) (mkpf (i + nnat (length sp)) (nnat (length ds))) ClFIN 0)
+  else exists o s', parse_clen (p ++ text) i uintb0 = Done o ENumTooBig s'.
+Proof. exact clen_value_spec. Qed.
 Theorem C10_uint32_accumulation_exact_or_rejected : forall ds v, all_digits ds -> v <= MaxU32 ->
   acc32_all v ds = if dec_from v ds <=? MaxU32 then Some (dec_from v ds) else None.
 Proof. exact acc32_all_exact. Qed.
